@@ -4,8 +4,10 @@ import (
 	"bufio"
 	"flag"
 	"fmt"
+	"github.com/sqlc-dev/doubleclick/token"
 	"os"
 	"path/filepath"
+	"sort"
 	"strconv"
 	"strings"
 )
@@ -124,6 +126,18 @@ func genLexCmd(in *bufio.Scanner, out *bufio.Writer, args []string) error {
 						fmt.Fprintln(out, hx([]byte(strings.Repeat(l, n)+pre+" ")))
 					}
 				}
+			}
+		}
+		// every keyword spelling extended by one more character or a suffix, and embedded in a longer word: only the exact
+		// spelling is the keyword (Lookup "from that spelling and from no other")
+		kws := make([]string, 0, len(token.Keywords))
+		for k := range token.Keywords {
+			kws = append(kws, k)
+		}
+		sort.Strings(kws)
+		for _, k := range kws {
+			for _, w := range []string{k + "_AT", k + "1", strings.ToLower(k) + "_total", "X" + k, k + "S", k + k, k[:len(k)-1], k + "\x00", k + "é"} {
+				fmt.Fprintln(out, hx([]byte("SELECT 1 "+w+" ")))
 			}
 		}
 		// a multi-byte letter starting at every offset of an otherwise ASCII identifier (a rune straddling the end of a
